@@ -29,6 +29,15 @@ def explore(ctx):
         f = c08_files.files_explore(ctx)
         res["violations"] += f["violations"]
         res["coverage"].update(f["coverage"])
+    if not res["violations"]:
+        # "the next run does not redo writes that completed", on the BUNDLED file stores: a rebuild whose values serialise to the
+        # very bytes already on disk is a completed write like any other - the run after it must do nothing (shared with C05)
+        from harness.props import c05
+        f = c05.files_idempotence(ctx)
+        for v in f["violations"]:
+            v.update(property="C08", replay_fn="files_idempotence")
+        res["violations"] += f["violations"]
+        res["coverage"]["file_store_settled_rebuilds"] = f["coverage"].get("file_store_idempotence_cases", f["coverage"].get("files_idempotence_cases", 0))
     return res
 
 
@@ -51,6 +60,10 @@ def search(ctx, broken):
 
 def replay(ctx, payload):
     w = payload.get("witness", payload)
+    if w.get("replay_fn") == "files_idempotence":
+        from harness.props import c05
+        r = c05.files_idempotence(ctx, replay=w)
+        return r["violations"][0]["what"] if r["violations"] else None
     if w.get("replay_fn") == "files":
         from harness import c08_files
         return c08_files.files_explore(ctx, replay=w)
